@@ -191,7 +191,8 @@ PROPS['C02'] = {
     'theorems': ['Suiron.C02.cut_executes', 'Suiron.C02.marked_node_blocks', 'Suiron.C02.no_later_clause', 'Suiron.C02.cut_then_fail_ends_call',
                  'Suiron.C02.cut_is_local', 'Suiron.C02.cut_marks', 'Suiron.C02.cut_yields_at_most_this_answer',
                  'Suiron.C02.C02_flat', 'Suiron.C02.C02_flat_exact', 'Suiron.C02.machine_barriers_wf', 'Suiron.C02.machine_cut',
-                 'Suiron.C02.machine_commit'],
+                 'Suiron.C02.machine_commit', 'Suiron.C02.C02_groups', 'Suiron.C02.C02_groups_exact', 'Suiron.C02.group_machine_barriers_wf',
+                 'Suiron.C02.group_machine_cut', 'Suiron.C02.group_machine_commit_group', 'Suiron.C02.group_machine_commit_body'],
     'oracles': ['C02'],
     'suites': {
         'quick': engine_runs('C02', 1500, [['--cut', '8', '--not', '0'], ['--cut', '5'], ['--cut', '10', '--print', '3', '--not', '0']], what='both'),
@@ -201,7 +202,7 @@ PROPS['C02'] = {
     'design_ref': '5.2',
     'assumptions': ["the theorems are about the engine model: a cut marks every node it passes on its way up, a marked node is never entered again and "
                     "changes nothing, a call whose body cut and failed tries no later clause, a call never passes a cut on to its caller; the refinement to the "
-                    "reference machine with cut (Spec/CutMachine.lean) is proved for knowledge bases with flat rule bodies only",
+                    "reference machine with cut and groups (Spec/GroupMachine.lean) is proved for rule bodies without not(...) and time(...)",
                     ENGINE_ASSUME],
 }
 PROPS['C03'] = {
@@ -224,7 +225,7 @@ PROPS['C03'] = {
 PROPS['C04'] = {
     'exhaustive_in': {'quick': True, 'thorough': True},
     'module': 'SuironVerif.Props.C04',
-    'theorems': ['Suiron.C04.output_in_search_order', 'Suiron.C04.bip_effect_once', 'Suiron.C04.bip_output_appended', 'Suiron.C04.interleave_eq', 'Suiron.C04.interleave_no_markers',
+    'theorems': ['Suiron.C04.output_in_search_order', 'Suiron.C04.output_in_search_order_with_cut', 'Suiron.C04.bip_effect_once', 'Suiron.C04.bip_output_appended', 'Suiron.C04.interleave_eq', 'Suiron.C04.interleave_no_markers',
                  'Suiron.C04.print_shows_bound_value'],
     'oracles': ['C04'],
     'suites': {
@@ -614,11 +615,12 @@ LEVEL_TEXT = {
     'C02': 'Proved in Lean on the engine model for all nodes, knowledge bases, states and fuel: `!` marks its node and raises the cut flag; every node that '
            'passes the flag on is marked when it returns; a marked node answers none and changes nothing (no retry to the left of the cut, no answer '
            'beyond the one being derived); a call whose body cut and then failed tries no later clause; a call never reports a cut to its caller '
-           '(callers and siblings unaffected). For every knowledge base whose rule bodies are flat (empty, one call / built-in / cut, or a conjunction of those) the '
-           'request-by-request answers and output of the engine are exactly the run of a reference machine with cut (refinement C02_flat; the machine is '
-           'deterministic: C02_flat_exact), and on that machine a cut leaves exactly the stack that was there when its clause was chosen (no later clause, no '
-           'alternative to its left, caller untouched), as does the end of a body in which a cut ran. Bodies with nested groups, disjunctions or negation: '
-           'decided by comparing implementation, engine model and executable reference machine on every run.',
+           '(callers and siblings unaffected). For every knowledge base whose rule bodies are built from calls, built-ins, `!`, conjunctions and disjunctions '
+           'nested to any depth - the programs the property quantifies over - the request-by-request answers and output of the engine are exactly the run of a '
+           'reference machine with cut and groups (refinement C02_groups; the machine is deterministic: C02_groups_exact), and on that machine a cut at any depth '
+           'leaves exactly the stack that was there when its clause was chosen (no later clause, no other member of an enclosing disjunction, no alternative '
+           'to its left, caller untouched), as does the end of every group and of the body in which a cut ran; the same against a smaller machine for flat '
+           'bodies. `!` mixed with not(...) or time(...): decided by comparing implementation, engine model and executable reference machine on every run.',
     'C03': 'Proved in Lean: the first request on a not-node asks G once and returns its own, unchanged substitution set iff G has no '
            'answer, none otherwise; afterwards the node is exhausted; for every cut-free G and knowledge base `G has no answer` is the reference search for G running '
            'to the empty stack, and `none` is that search showing an answer, as equivalences (C03_iff: the reference machine is deterministic; negation is part of the refinement theorem of C01). G containing `!` / time: '
@@ -626,7 +628,7 @@ LEVEL_TEXT = {
     'C04': 'Proved in Lean: on the cut-free fragment (negation included) the text written up to every request equals the text the reference machine has written at that point of '
            'its depth-first run (output component of the refinement theorem: once per execution, in execution order, retries included); a built-in node runs its effect '
            'on the first request only and appends exactly its text; print interleaves its arguments with the pieces of the format (or concatenates without markers) and '
-           'shows bound values. With `!` or time: order and multiplicity are decided by comparing captured stdout per request with the reference machine.',
+           'shows bound values. The same refinement, output included, is proved for programs with `!` in conjunctions and disjunctions nested to any depth (machine with cut and groups). `!` mixed with not(...), and time(...): order and multiplicity are decided by comparing captured stdout per request with the reference machine.',
     'C05': 'Proved in Lean for all nodes, knowledge bases, global states and fuel values: a request that answers none leaves an exhausted node, and an '
            'exhausted node answers none again with the global state (output, counter, ticks) unchanged, for any number of further requests.',
     'C06': 'Proved in Lean for all well-formed function-free operands, substitution sets, substitutions and fuel: a successful unification keeps every earlier binding verbatim '
